@@ -8,6 +8,9 @@ CLAIMED = {
             "filter_ignore_block's real body proved equal to the recursive specification of the statement for all texts (per-path string VCs, z3 then cvc5); spec lemmas; plus a bounded token enumeration through the real extract_reuse_info (labelled bounded, not counted)",
             "trusts pyvc's encoding of the Python subset (str.index/find/slicing/truthiness), the solvers' string theory, code points <= U+2FFFF", "4.12"),
 }
+CLAIMED["C01"] = ("proof", CLAIMED["C12"][1],
+    "contracts on the real bodies of the report getters, ProjectReport.generate (4 loops with invariants), FileReport.generate (3 nested loops), is_compliant and the lint callback; lemma `verdict`: compliant <=> clauses (a)-(d) of the statement over the per-file results; lint's exit status proved 0 exactly then, on every output branch (626 obligations, unbounded)",
+    "assumed contracts: _generate_file_reports (covered-file enumeration: C03/C14), Project.reuse_info_of (C04), ClickObj.project (C16), formatters' frames (C13), license_expression/hashlib as uninterpreted; trusts pyvc's encoding and z3", "4.1")
 NOT_YET = "check not built yet in this session (work in progress; see DESIGN.md section 4 for the planned contracts)"
 props = [json.loads(l) for l in open(os.path.join(V, "properties.jsonl"))]
 checks, na = [], []
